@@ -232,7 +232,10 @@ def gen_union_nonmember(gs, w):
     names = {typegen.type_name(w.schema, m) for m in members}
     outs = [x for x in outs if typegen.type_name(w.schema, x.t) not in names]
     if outs and rng.random() < 0.7:
-        return {"obj": o.k, "path": p, "target_obj": rng.choice(outs).k, "via": gs._via(o)}
+        # prefer classes that are members of *another* union of the schema
+        elsewhere = {m for ty in w.schema if ty["k"] == "uref" for m in ty["members"]}
+        pref = [x for x in outs if x.t in elsewhere]
+        return {"obj": o.k, "path": p, "target_obj": rng.choice(pref or outs).k, "via": gs._via(o)}
     nonmember = [i for i, ty in enumerate(w.schema) if ty["k"] == "struct" and i not in members]
     if not nonmember:
         return None
